@@ -280,6 +280,9 @@ class TimeRange(object):
                 in_range = False
             elif self.end is not None and comparison_time_sec >= self.end:
                 in_range = False
+                # P1 time has reached the end of the range. All further messages are out of range, even if no message
+                # was ever in range (e.g., an open-ended start time where the first P1 time is already past the end).
+                self._in_range_ended = True
             else:
                 in_range = True
 
